@@ -1,3 +1,784 @@
 import BareModel.LibH
+
+/-!
+# C12 — one number type: the int and float spellings of a number are interchangeable
+
+`LibH` (host level, `PyNum = int | float`, partial Python-typed primitives) refines the one-number-type library over `Rat`
+for the functions that use a number as index / count / size / radix / char code, for **all** arguments and whatever
+argument-model table `extract.py` regenerates from library.py.
+
+Scope note (also LEVEL_NOTE of harness/props/C12.py): for the *remaining* library functions numbers only flow into
+comparison / arithmetic / stringification, where Python's int-vs-float mixed operations are exact on the values
+(assumption, DESIGN §6); no theorem here speaks about them — they are covered by the `libnum` / `operators` / `script`
+streams of the harness (implementation-side metamorphic oracle) only.  The model is by-value: aliasing between
+arguments is covered by that oracle only.
+-/
+
 namespace C12
+open LibH
+
+theorem ratTrunc_intCast (n : Int) : ratTrunc (n : Rat) = n := by
+  simp [ratTrunc]
+
+theorem toInt_abs (x : PyNum) : toInt x = ratTrunc x.abs := by
+  cases x <;> simp [toInt, PyNum.abs, ratTrunc_intCast]
+
+theorem beq_intCast (a b : Int) : (a == b) = ((a : Rat) == (b : Rat)) := by
+  rw [Bool.eq_iff_iff, beq_iff_eq, beq_iff_eq, Rat.intCast_inj]
+
+theorem pyEq_abs (a b : PyNum) : pyEq a b = (a.abs == b.abs) := by
+  cases a <;> cases b <;> simp [pyEq, PyNum.abs, beq_intCast]
+
+theorem pyLtI_abs (x : PyNum) (b : Int) : pyLtI x b = decide (x.abs < (b : Rat)) := by
+  cases x <;> simp only [pyLtI, PyNum.abs] <;> apply decide_eq_decide.mpr
+  · exact Rat.intCast_lt_intCast.symm
+  · exact Iff.rfl
+
+theorem pyLeI_abs (x : PyNum) (b : Int) : pyLeI x b = decide (x.abs ≤ (b : Rat)) := by
+  cases x <;> simp only [pyLeI, PyNum.abs] <;> apply decide_eq_decide.mpr
+  · exact Rat.intCast_le_intCast.symm
+  · exact Iff.rfl
+
+
+/-! ### values -/
+
+theorem mapL_eq {N M : Type} (f : N → M) (xs : List (Val N)) : Val.mapL f xs = xs.map (Val.map f) := by
+  induction xs with
+  | nil => rfl
+  | cons x xs ih => simp [Val.mapL, ih]
+
+theorem mapKV_eq {N M : Type} (f : N → M) (kvs : List (String × Val N)) :
+    Val.mapKV f kvs = kvs.map (fun p => (p.1, Val.map f p.2)) := by
+  induction kvs with
+  | nil => rfl
+  | cons p r ih => obtain ⟨k, v⟩ := p; simp [Val.mapKV, ih]
+
+@[simp] theorem absV_null : absV .null = .null := by simp [absV, Val.map]
+@[simp] theorem absV_bool (b : Bool) : absV (.bool b) = .bool b := by simp [absV, Val.map]
+@[simp] theorem absV_num (x : PyNum) : absV (.num x) = .num x.abs := by simp [absV, Val.map]
+@[simp] theorem absV_str (s : String) : absV (.str s) = .str s := by simp [absV, Val.map]
+@[simp] theorem absV_opaque (k : String) (i : Int) : absV (.opaque k i) = .opaque k i := by simp [absV, Val.map]
+@[simp] theorem absV_arr (xs : List HVal) : absV (.arr xs) = .arr (xs.map absV) := by
+  simp [absV, Val.map, mapL_eq]
+@[simp] theorem absV_obj (kvs : List (String × HVal)) : absV (.obj kvs) = .obj (kvs.map (fun p => (p.1, absV p.2))) := by
+  simp [absV, Val.map, mapKV_eq]
+
+@[simp] theorem typeName_abs (v : HVal) : typeName (absV v) = typeName v := by
+  cases v <;> simp [typeName]
+
+/-! ### value_args_validate -/
+
+theorem pyNonzero_abs (x : PyNum) : pyNonzero x = (x.abs != 0) := by
+  cases x with
+  | int n =>
+    have := beq_intCast n 0
+    simp only [pyNonzero, PyNum.abs, bne, this]; simp
+  | float q => simp [pyNonzero, PyNum.abs]
+
+theorem truthy_abs (v : HVal) : truthy pyNonzero v = truthy (fun (q : Rat) => q != 0) (absV v) := by
+  cases v <;> simp [truthy, pyNonzero_abs]
+
+theorem numOkH_abs (m : Gen.ArgModel) (x : PyNum) : numOkH m x = numOkA m x.abs := by
+  simp only [numOkH, numOkA, pyEq_abs, toInt_abs, pyLtI_abs, pyLeI_abs, PyNum.abs]
+
+theorem typeOk_abs (t : String) (v : HVal) : typeOk t (absV v) = typeOk t v := by
+  simp [typeOk]
+
+theorem checkArg_abs (m : Gen.ArgModel) (v : HVal) :
+    (checkArg pyNonzero numOkH m v).map absV = checkArg (fun (q : Rat) => q != 0) numOkA m (absV v) := by
+  unfold checkArg
+  cases m.type with
+  | none => simp
+  | some t =>
+    by_cases hb : t = "boolean"
+    · simp [hb, truthy_abs]
+    · cases v <;> simp [hb, typeOk_abs, numOkH_abs, typeOk, typeName] <;> (try split) <;> simp_all
+
+theorem parseDefault_abs (t : String) :
+    absV (parseDefault PyNum PyNum.int t) = parseDefault Rat (fun (n : Int) => (n : Rat)) t := by
+  unfold parseDefault
+  split
+  · simp
+  · split
+    · simp
+    · split
+      · simp
+      · cases t.toInt? <;> simp [PyNum.abs]
+
+theorem missingArg_abs (m : Gen.ArgModel) :
+    (missingArg PyNum.int m).map absV = missingArg (fun (n : Int) => (n : Rat)) m := by
+  unfold missingArg
+  split
+  · simp
+  · cases m.default with
+    | some t => simp [parseDefault_abs]
+    | none => simp only []; split <;> (try split) <;> simp
+
+/-- **value_args_validate is spelling-blind** (refinement form): for every argument-model table (whatever `library.py` says
+    now — the table is data) and every argument list, host-level validation followed by forgetting the spelling equals
+    one-number-type validation of the abstracted arguments, including which calls are rejected, the defaults filled in, the
+    booleans coerced and the `lastArgArray` collection. -/
+theorem validate_refines (ms : List Gen.ArgModel) (args : List HVal) :
+    (validateH ms args).map (List.map absV) = validateA ms (args.map absV) := by
+  unfold validateH validateA
+  induction ms generalizing args with
+  | nil => cases args <;> simp [validate]
+  | cons m ms ih =>
+    cases args with
+    | nil =>
+      have h0 := ih []
+      simp only [List.map_nil] at h0
+      simp only [validate, List.map_nil, ← missingArg_abs, ← h0]
+      cases missingArg PyNum.int m <;> cases validate pyNonzero numOkH PyNum.int ms [] <;> simp
+    | cons a as =>
+      simp only [validate, List.map_cons]
+      by_cases hl : m.lastArgArray = true
+      · have h0 := ih []
+        simp only [List.map_nil] at h0
+        simp only [hl, if_true, ← h0]
+        cases validate pyNonzero numOkH PyNum.int ms [] <;> simp
+      · have h1 := ih as
+        simp only [hl, ← checkArg_abs, ← h1]
+        cases checkArg pyNonzero numOkH m a <;> cases validate pyNonzero numOkH PyNum.int ms as <;> simp
+
+
+/-! ### value_compare(a, b) == 0 and bucket-key equality -/
+
+mutual
+theorem size_map {N M : Type} (f : N → M) : ∀ v : Val N, Val.size (Val.map f v) = Val.size v
+  | .null => rfl
+  | .bool _ => rfl
+  | .num _ => rfl
+  | .str _ => rfl
+  | .opaque _ _ => rfl
+  | .arr xs => by simp [Val.map, Val.size, sizeL_map f xs]
+  | .obj kvs => by simp [Val.map, Val.size, sizeKV_map f kvs]
+theorem sizeL_map {N M : Type} (f : N → M) : ∀ xs : List (Val N), Val.sizeL (Val.mapL f xs) = Val.sizeL xs
+  | [] => rfl
+  | x :: xs => by simp [Val.mapL, Val.sizeL, size_map f x, sizeL_map f xs]
+theorem sizeKV_map {N M : Type} (f : N → M) : ∀ kvs : List (String × Val N), Val.sizeKV (Val.mapKV f kvs) = Val.sizeKV kvs
+  | [] => rfl
+  | (k, v) :: r => by simp [Val.mapKV, Val.sizeKV, size_map f v, sizeKV_map f r]
+end
+
+theorem insertKV_map {V W : Type} (g : V → W) (p : String × V) (l : List (String × V)) :
+    insertKV (p.1, g p.2) (l.map (fun q => (q.1, g q.2))) = (insertKV p l).map (fun q => (q.1, g q.2)) := by
+  induction l with
+  | nil => rfl
+  | cons q r ih =>
+    simp only [List.map_cons, insertKV]
+    split <;> simp [ih]
+
+theorem sortKV_map {V W : Type} (g : V → W) (l : List (String × V)) :
+    sortKV (l.map (fun q => (q.1, g q.2))) = (sortKV l).map (fun q => (q.1, g q.2)) := by
+  induction l with
+  | nil => rfl
+  | cons p r ih => simp only [List.map_cons, sortKV, ih, insertKV_map]
+
+theorem eqFuel_abs (strict : Bool) : ∀ (f : Nat) (a b : HVal),
+    eqFuel pyEq strict f a b = eqFuel ratEq strict f (absV a) (absV b) := by
+  intro f
+  induction f with
+  | zero => intro a b; simp [eqFuel]
+  | succ f ih =>
+    intro a b
+    have ih' : eqFuel pyEq strict f = fun a b => eqFuel ratEq strict f (absV a) (absV b) := by
+      funext a b; exact ih a b
+    cases a <;> cases b <;> simp [eqFuel, pyEq_abs, ratEq, List.zipWith_map, sortKV_map, ih, ih']
+
+/-- `value_compare(a, b) == 0` (used by arrayIndexOf / arrayLastIndexOf) depends only on the values, at every depth
+    (arrays element-wise, objects through their sorted items). -/
+theorem cmpEq_refines (a b : HVal) : cmpEq pyEq a b = cmpEq ratEq (absV a) (absV b) := by
+  simp [cmpEq, eqFuel_abs, absV, size_map]
+
+theorem keyEq_abs (a b : HVal) : keyEq pyEq a b = keyEq ratEq (absV a) (absV b) := by
+  simp [keyEq, eqFuel_abs, absV, size_map]
+
+
+/-! ### bodies -/
+
+def absFail : Fail PyNum → Fail Rat
+  | .args r => .args (absV r)
+  | .host e => .host e
+
+def absBodyR (p : BodyR PyNum) : BodyR Rat := (absV p.1, p.2.map (List.map absV))
+
+/-- forget the spelling in the outcome of a (sub)computation -/
+def absE {α β : Type} (g : α → β) : Except (Fail PyNum) α → Except (Fail Rat) β
+  | .ok a => .ok (g a)
+  | .error e => .error (absFail e)
+
+abbrev absB : Except (Fail PyNum) (BodyR PyNum) → Except (Fail Rat) (BodyR Rat) := absE absBodyR
+
+@[simp] theorem abs_int (n : Int) : (PyNum.int n).abs = (n : Rat) := rfl
+@[simp] theorem abs_float (q : Rat) : (PyNum.float q).abs = q := rfl
+
+macro "leaf" : tactic =>
+  `(tactic| simp [absE, absFail, absBodyR, pure, Except.pure, throw, throwThe, MonadExceptOf.throw, ofI])
+
+theorem list2_map {α β : Type} (f : α → β) (v : List α) : list2 (v.map f) = (list2 v).map (fun p => (f p.1, f p.2)) := by
+  rcases v with _ | ⟨a, _ | ⟨b, _ | ⟨c, t⟩⟩⟩ <;> simp [list2]
+
+theorem list3_map {α β : Type} (f : α → β) (v : List α) :
+    list3 (v.map f) = (list3 v).map (fun p => (f p.1, f p.2.1, f p.2.2)) := by
+  rcases v with _ | ⟨a, _ | ⟨b, _ | ⟨c, _ | ⟨d, t⟩⟩⟩⟩ <;> simp [list3]
+
+theorem asArr_abs (a : HVal) : (absV a).asArr? = a.asArr?.map (List.map absV) := by cases a <;> simp [Val.asArr?]
+theorem asNum_abs (a : HVal) : (absV a).asNum? = a.asNum?.map PyNum.abs := by cases a <;> simp [Val.asNum?]
+theorem asStr_abs (a : HVal) : (absV a).asStr? = a.asStr? := by cases a <;> simp [Val.asStr?]
+theorem asOptNum_abs (a : HVal) : (absV a).asOptNum? = a.asOptNum?.map (Option.map PyNum.abs) := by
+  cases a <;> simp [Val.asOptNum?]
+
+theorem geLen_abs (x : PyNum) (n : Nat) : geLen x n = geLenA x.abs n := by simp [geLen, geLenA, pyLtI_abs]
+theorem gtLen_abs (x : PyNum) (n : Nat) : gtLen x n = gtLenA x.abs n := by simp [gtLen, gtLenA, pyLeI_abs]
+
+theorem index_map {α β : Type} (f : α → β) (xs : List α) (i : Int) :
+    (normIndex (xs.map f).length i).bind ((xs.map f)[·]?) = ((normIndex xs.length i).bind (xs[·]?)).map f := by
+  simp only [List.length_map]
+  cases normIndex xs.length i <;> simp
+
+/-- `xs[int]` at host level is the abstract indexing -/
+theorem listIndex_ref {α β : Type} (f : α → β) (xs : List α) (k : Int) :
+    absE f (hostE (listIndex xs (.int k))) = idxA (xs.map f) k := by
+  simp only [hostE, listIndex, idxA, index_map]
+  cases (normIndex xs.length k).bind (xs[·]?) <;> leaf
+
+theorem sliceI_map {α β : Type} (f : α → β) (xs : List α) (s e : Int) : sliceI (xs.map f) s e = (sliceI xs s e).map f := by
+  simp [sliceI, List.map_take, List.map_drop]
+
+theorem eraseIdx_map {α β : Type} (f : α → β) : ∀ (xs : List α) (k : Nat), (xs.eraseIdx k).map f = (xs.map f).eraseIdx k
+  | [], _ => rfl
+  | _ :: _, 0 => rfl
+  | x :: xs, k + 1 => by simp [List.eraseIdx, eraseIdx_map f xs k]
+
+theorem getD_abs (e : Option PyNum) (n : Int) : (e.map PyNum.abs).getD (n : Rat) = (e.getD (.int n)).abs := by
+  cases e <;> simp [PyNum.abs]
+
+theorem arrayGet_ref (v : List HVal) : absB (arrayGetH v) = arrayGetA (v.map absV) := by
+  unfold arrayGetH arrayGetA
+  rw [list2_map]
+  cases list2 v with
+  | none => rfl
+  | some p =>
+    obtain ⟨a, i⟩ := p
+    simp only [Option.map_some, req, bind, Except.bind, asArr_abs, asNum_abs]
+    cases a.asArr? with
+    | none => rfl
+    | some xs =>
+      cases i.asNum? with
+      | none => rfl
+      | some index =>
+        simp only [Option.map_some, geLen_abs, List.length_map, toInt_abs]
+        by_cases h : geLenA index.abs xs.length = true
+        · simp only [h]; leaf
+        · simp only [h, ← listIndex_ref]
+          cases hostE (listIndex xs (PyNum.int (ratTrunc index.abs))) <;> leaf
+
+theorem arrayDelete_ref (v : List HVal) : absB (arrayDeleteH v) = arrayDeleteA (v.map absV) := by
+  unfold arrayDeleteH arrayDeleteA
+  rw [list2_map]
+  cases list2 v with
+  | none => rfl
+  | some p =>
+    obtain ⟨a, i⟩ := p
+    simp only [Option.map_some, req, bind, Except.bind, asArr_abs, asNum_abs]
+    cases a.asArr? with
+    | none => rfl
+    | some xs =>
+      cases i.asNum? with
+      | none => rfl
+      | some index =>
+        simp only [Option.map_some, geLen_abs, List.length_map, toInt_abs]
+        by_cases h : geLenA index.abs xs.length = true
+        · simp only [h]; leaf
+        · simp only [h, hostE, listDel, atIndexA]
+          cases normIndex xs.length (ratTrunc index.abs) <;> simp [absE, absFail, absBodyR, pure, Except.pure, throw, throwThe, MonadExceptOf.throw, eraseIdx_map]
+
+theorem arraySet_ref (v : List HVal) : absB (arraySetH v) = arraySetA (v.map absV) := by
+  unfold arraySetH arraySetA
+  rw [list3_map]
+  cases list3 v with
+  | none => rfl
+  | some p =>
+    obtain ⟨a, i, value⟩ := p
+    simp only [Option.map_some, req, bind, Except.bind, asArr_abs, asNum_abs]
+    cases a.asArr? with
+    | none => rfl
+    | some xs =>
+      cases i.asNum? with
+      | none => rfl
+      | some index =>
+        simp only [Option.map_some, geLen_abs, List.length_map, toInt_abs]
+        by_cases h : geLenA index.abs xs.length = true
+        · simp only [h]; leaf
+        · simp only [h, hostE, listSet, atIndexA]
+          cases normIndex xs.length (ratTrunc index.abs) <;> leaf
+
+theorem arraySlice_ref (v : List HVal) : absB (arraySliceH v) = arraySliceA (v.map absV) := by
+  unfold arraySliceH arraySliceA
+  rw [list3_map]
+  cases list3 v with
+  | none => rfl
+  | some p =>
+    obtain ⟨a, s, e⟩ := p
+    simp only [Option.map_some, req, bind, Except.bind, asArr_abs, asNum_abs, asOptNum_abs]
+    cases a.asArr? with
+    | none => rfl
+    | some xs =>
+      cases s.asNum? with
+      | none => rfl
+      | some start =>
+        cases e.asOptNum? with
+        | none => rfl
+        | some e' =>
+          simp only [Option.map_some, gtLen_abs, List.length_map, toInt_abs, getD_abs, hostE, listSlice, sliceI_map]
+          by_cases h : gtLenA start.abs xs.length = true
+          · simp only [h]; leaf
+          · by_cases h2 : gtLenA (e'.getD (PyNum.int xs.length)).abs xs.length = true
+            · simp only [h, h2]; leaf
+            · simp only [h, h2]; leaf
+
+theorem arrayNewSize_ref (v : List HVal) : absB (arrayNewSizeH v) = arrayNewSizeA (v.map absV) := by
+  unfold arrayNewSizeH arrayNewSizeA
+  rw [list2_map]
+  cases list2 v with
+  | none => rfl
+  | some p =>
+    obtain ⟨s, value⟩ := p
+    simp only [Option.map_some, req, bind, Except.bind, asNum_abs]
+    cases s.asNum? with
+    | none => rfl
+    | some size => simp only [Option.map_some, toInt_abs, hostE, rangeLen]; leaf
+
+
+theorem search_ref (xs : List HVal) (value : HVal) (ixs : List Int) :
+    absE id (searchH xs value ixs) = searchA (xs.map absV) (absV value) ixs := by
+  induction ixs with
+  | nil => simp only [searchH, searchA]; leaf
+  | cons ix rest ih =>
+    simp only [searchH, searchA, bind, Except.bind, ← listIndex_ref absV]
+    cases hostE (listIndex xs (PyNum.int ix)) with
+    | error e => leaf
+    | ok x =>
+      simp only [absE, ← cmpEq_refines]
+      by_cases h : cmpEq pyEq x value = true
+      · simp only [h]; leaf
+      · simp only [h]; exact ih
+
+theorem arrayIndexOf_ref (v : List HVal) : absB (arrayIndexOfH v) = arrayIndexOfA (v.map absV) := by
+  unfold arrayIndexOfH arrayIndexOfA
+  rw [list3_map]
+  cases list3 v with
+  | none => rfl
+  | some p =>
+    obtain ⟨a, value, i⟩ := p
+    simp only [Option.map_some, req, bind, Except.bind, asArr_abs, asNum_abs]
+    cases a.asArr? with
+    | none => rfl
+    | some xs =>
+      cases i.asNum? with
+      | none => rfl
+      | some index =>
+        simp only [Option.map_some, geLen_abs, List.length_map, toInt_abs, typeName_abs, hostE, rangeUp, ← search_ref]
+        by_cases h : geLenA index.abs xs.length = true
+        · simp only [h]; leaf
+        · by_cases h2 : (typeName value == "function") = true
+          · simp only [h, h2]; leaf
+          · simp only [h, h2]
+            cases searchH xs value (upFrom (ratTrunc index.abs) xs.length) <;> leaf
+
+theorem lastDefault_abs (e : Option PyNum) (n : Int) : (e.map PyNum.abs).getD ((n : Int) : Rat) = (e.getD (.int n)).abs :=
+  getD_abs e n
+
+theorem arrayLastIndexOf_ref (v : List HVal) : absB (arrayLastIndexOfH v) = arrayLastIndexOfA (v.map absV) := by
+  unfold arrayLastIndexOfH arrayLastIndexOfA
+  rw [list3_map]
+  cases list3 v with
+  | none => rfl
+  | some p =>
+    obtain ⟨a, value, i⟩ := p
+    simp only [Option.map_some, req, bind, Except.bind, asArr_abs, asOptNum_abs]
+    cases a.asArr? with
+    | none => rfl
+    | some xs =>
+      cases i.asOptNum? with
+      | none => rfl
+      | some i' =>
+        simp only [Option.map_some, geLen_abs, List.length_map, toInt_abs, typeName_abs, hostE, rangeDown, ← search_ref,
+          lastDefault_abs]
+        by_cases h : geLenA (i'.getD (PyNum.int ((xs.length : Int) - 1))).abs xs.length = true
+        · simp only [h]; leaf
+        · by_cases h2 : (typeName value == "function") = true
+          · simp only [h, h2]; leaf
+          · simp only [h, h2]
+            cases searchH xs value (downFrom (ratTrunc (i'.getD (PyNum.int ((xs.length : Int) - 1))).abs)) <;> leaf
+
+theorem stringCharCodeAt_ref (v : List HVal) : absB (stringCharCodeAtH v) = stringCharCodeAtA (v.map absV) := by
+  unfold stringCharCodeAtH stringCharCodeAtA
+  rw [list2_map]
+  cases list2 v with
+  | none => rfl
+  | some p =>
+    obtain ⟨a, i⟩ := p
+    simp only [Option.map_some, req, bind, Except.bind, asStr_abs, asNum_abs]
+    cases a.asStr? with
+    | none => rfl
+    | some s =>
+      cases i.asNum? with
+      | none => rfl
+      | some index =>
+        simp only [Option.map_some, geLen_abs, toInt_abs]
+        have hl := listIndex_ref (fun (c : Char) => c) s.toList (ratTrunc index.abs)
+        simp only [List.map_id'] at hl
+        by_cases h : geLenA index.abs s.length = true
+        · simp only [h]; leaf
+        · simp only [h, ← hl]
+          cases hostE (listIndex s.toList (PyNum.int (ratTrunc index.abs))) <;> leaf
+
+theorem stringIndexOf_ref (v : List HVal) : absB (stringIndexOfH v) = stringIndexOfA (v.map absV) := by
+  unfold stringIndexOfH stringIndexOfA
+  rw [list3_map]
+  cases list3 v with
+  | none => rfl
+  | some p =>
+    obtain ⟨a, b, i⟩ := p
+    simp only [Option.map_some, req, bind, Except.bind, asStr_abs, asNum_abs]
+    cases a.asStr? with
+    | none => rfl
+    | some s =>
+      cases b.asStr? with
+      | none => rfl
+      | some search =>
+        cases i.asNum? with
+        | none => rfl
+        | some index =>
+          simp only [Option.map_some, geLen_abs, toInt_abs, hostE, strFind]
+          by_cases h : geLenA index.abs s.length = true
+          · simp only [h]; leaf
+          · simp only [h]; leaf
+
+theorem stringLastIndexOf_ref (v : List HVal) : absB (stringLastIndexOfH v) = stringLastIndexOfA (v.map absV) := by
+  unfold stringLastIndexOfH stringLastIndexOfA
+  rw [list3_map]
+  cases list3 v with
+  | none => rfl
+  | some p =>
+    obtain ⟨a, b, i⟩ := p
+    simp only [Option.map_some, req, bind, Except.bind, asStr_abs, asOptNum_abs]
+    cases a.asStr? with
+    | none => rfl
+    | some s =>
+      cases b.asStr? with
+      | none => rfl
+      | some search =>
+        cases i.asOptNum? with
+        | none => rfl
+        | some i' =>
+          simp only [Option.map_some, geLen_abs, toInt_abs, hostE, strRFind, lastDefault_abs]
+          by_cases h : geLenA (i'.getD (PyNum.int ((s.length : Int) - 1))).abs s.length = true
+          · simp only [h]; leaf
+          · simp only [h]; leaf
+
+theorem stringRepeat_ref (v : List HVal) : absB (stringRepeatH v) = stringRepeatA (v.map absV) := by
+  unfold stringRepeatH stringRepeatA
+  rw [list2_map]
+  cases list2 v with
+  | none => rfl
+  | some p =>
+    obtain ⟨a, c⟩ := p
+    simp only [Option.map_some, req, bind, Except.bind, asStr_abs, asNum_abs]
+    cases a.asStr? with
+    | none => rfl
+    | some s =>
+      cases c.asNum? with
+      | none => rfl
+      | some count => simp only [Option.map_some, toInt_abs, hostE, strRepeat]; leaf
+
+theorem stringSlice_ref (v : List HVal) : absB (stringSliceH v) = stringSliceA (v.map absV) := by
+  unfold stringSliceH stringSliceA
+  rw [list3_map]
+  cases list3 v with
+  | none => rfl
+  | some p =>
+    obtain ⟨a, st, e⟩ := p
+    simp only [Option.map_some, req, bind, Except.bind, asStr_abs, asNum_abs, asOptNum_abs]
+    cases a.asStr? with
+    | none => rfl
+    | some s =>
+      cases st.asNum? with
+      | none => rfl
+      | some start =>
+        cases e.asOptNum? with
+        | none => rfl
+        | some e' =>
+          simp only [Option.map_some, gtLen_abs, toInt_abs, getD_abs, hostE, listSlice]
+          by_cases h : gtLenA start.abs s.length = true
+          · simp only [h]; leaf
+          · by_cases h2 : gtLenA (e'.getD (PyNum.int s.length)).abs s.length = true
+            · simp only [h, h2]; leaf
+            · simp only [h, h2]; leaf
+
+theorem numberParseInt_ref (v : List HVal) : absB (numberParseIntH v) = numberParseIntA (v.map absV) := by
+  unfold numberParseIntH numberParseIntA
+  rw [list2_map]
+  cases list2 v with
+  | none => rfl
+  | some p =>
+    obtain ⟨a, r⟩ := p
+    simp only [Option.map_some, req, bind, Except.bind, asStr_abs, asNum_abs]
+    cases a.asStr? with
+    | none => rfl
+    | some s =>
+      cases r.asNum? with
+      | none => rfl
+      | some radix =>
+        simp only [Option.map_some, toInt_abs, intRadix]
+        by_cases h : 2 ≤ ratTrunc radix.abs ∧ ratTrunc radix.abs ≤ 36
+        · simp only [h, and_self, if_true]
+          cases parseIntText s (ratTrunc radix.abs).toNat <;> leaf
+        · simp only [h, if_false]; leaf
+
+
+theorem mapM_abs {α β α' β' : Type} (f : α → Except (Fail PyNum) β) (f' : α' → Except (Fail Rat) β') (ga : α → α') (gb : β → β')
+    (h : ∀ a, absE gb (f a) = f' (ga a)) (l : List α) : absE (List.map gb) (l.mapM f) = (l.map ga).mapM f' := by
+  induction l with
+  | nil => simp only [List.mapM_nil, List.map_nil]; leaf
+  | cons a l ih =>
+    simp only [List.mapM_cons, List.map_cons, bind, Except.bind, ← h, ← ih]
+    cases f a with
+    | error e => leaf
+    | ok b => cases List.mapM f l <;> leaf
+
+theorem charCodeOk_ref (c : HVal) : absE PyNum.abs (charCodeOkH c) = charCodeOkA (absV c) := by
+  cases c with
+  | num x =>
+    simp only [charCodeOkH, charCodeOkA, absV_num, pyEq_abs, toInt_abs, pyLtI_abs, abs_int]
+    by_cases hc : (!((ratTrunc x.abs : Int) : Rat) == x.abs || decide (x.abs < ((0 : Int) : Rat))) = true
+    · simp only [hc]; leaf
+    · simp only [hc]; leaf
+  | _ => simp only [charCodeOkH, charCodeOkA, absV_null, absV_bool, absV_str, absV_arr, absV_obj, absV_opaque] <;> leaf
+
+theorem pyChr_ref (x : PyNum) : absE (fun (c : Char) => c) (hostE (pyChr (.int (toInt x)))) = chrA (ratTrunc x.abs) := by
+  simp only [pyChr, chrA, toInt_abs]
+  by_cases hc : 0 ≤ ratTrunc x.abs ∧ ratTrunc x.abs < 0x110000 ∧ ¬ (0xd800 ≤ ratTrunc x.abs ∧ ratTrunc x.abs < 0xe000)
+  · simp only [hc, hostE]; leaf
+  · simp only [hc, if_false, hostE]; leaf
+
+theorem stringFromCharCode_ref (v : List HVal) : absB (stringFromCharCodeH v) = stringFromCharCodeA (v.map absV) := by
+  unfold stringFromCharCodeH stringFromCharCodeA
+  have h1 := mapM_abs charCodeOkH charCodeOkA absV PyNum.abs charCodeOk_ref v
+  simp only [bind, Except.bind, ← h1]
+  cases List.mapM charCodeOkH v with
+  | error e => leaf
+  | ok nums =>
+    have h2 := mapM_abs (fun x => hostE (pyChr (.int (toInt x)))) (fun x => chrA (ratTrunc x)) PyNum.abs (fun (c : Char) => c) pyChr_ref nums
+    simp only [List.map_id_fun'] at h2
+    simp only [absE, ← h2]
+    cases List.mapM (fun x => hostE (pyChr (.int (toInt x)))) nums <;> leaf
+
+/-! dataTop -/
+
+theorem rowGet_ref (row field : HVal) : absE absV (rowGet row field) = rowGet (absV row) (absV field) := by
+  cases row with
+  | obj kvs =>
+    cases field with
+    | str k =>
+      simp only [rowGet, absV_obj, absV_str, List.find?_map, Function.comp_def]
+      cases kvs.find? (fun x => x.1 == k) <;> leaf
+    | _ => simp only [rowGet, absV_obj, absV_null, absV_bool, absV_num, absV_arr, absV_opaque] <;> leaf
+  | _ => simp only [rowGet, absV_null, absV_bool, absV_num, absV_str, absV_arr, absV_opaque] <;> leaf
+
+def absP (p : HVal × HVal) : AVal × AVal := (absV p.1, absV p.2)
+
+theorem rowKey_ref (fields : List HVal) (r : HVal) : absE absP (rowKey fields r) = rowKey (fields.map absV) (absV r) := by
+  have h := mapM_abs (rowGet r) (rowGet (absV r)) absV absV (rowGet_ref r) fields
+  simp only [rowKey, bind, Except.bind, ← h]
+  cases List.mapM (rowGet r) fields <;> simp [absE, absFail, absP, pure, Except.pure]
+
+theorem categoryKeys_ref (rows : List HVal) (cf : HVal) :
+    absE (List.map absP) (categoryKeys rows cf) = categoryKeys (rows.map absV) (absV cf) := by
+  cases cf with
+  | null => simp [categoryKeys, absE, absP, pure, Except.pure, Function.comp_def]
+  | arr fields =>
+    simp only [categoryKeys, absV_arr]
+    exact mapM_abs (rowKey fields) (rowKey (fields.map absV)) absV absP (rowKey_ref fields) rows
+  | _ => simp only [categoryKeys, absV_bool, absV_num, absV_str, absV_obj, absV_opaque] <;> leaf
+
+theorem firstSeen_ref (acc ks : List HVal) :
+    (firstSeen pyEq acc ks).map absV = firstSeen ratEq (acc.map absV) (ks.map absV) := by
+  induction ks generalizing acc with
+  | nil => simp [firstSeen]
+  | cons k ks ih =>
+    simp only [firstSeen, List.map_cons, List.any_map, Function.comp_def, ← keyEq_abs]
+    split
+    · exact ih acc
+    · have := ih (acc ++ [k]); simpa using this
+
+theorem topRows_ref (n : Nat) (keyed : List (HVal × HVal)) :
+    (topRows pyEq n keyed).map absV = topRows ratEq n (keyed.map absP) := by
+  have hf := firstSeen_ref [] (keyed.map (·.1))
+  simp only [List.map_nil, List.map_map] at hf
+  simp only [topRows, List.map_flatMap, List.map_map]
+  have hc : ((fun (x : AVal × AVal) => x.fst) ∘ absP) = (absV ∘ fun (x : HVal × HVal) => x.fst) := rfl
+  rw [hc, ← hf, List.flatMap_map]
+  congr 1
+  funext c
+  simp only [List.filter_map, Function.comp_def, absP, ← keyEq_abs, List.map_take, List.map_map]
+
+theorem dataTop_ref (v : List HVal) : absB (dataTopH v) = dataTopA (v.map absV) := by
+  unfold dataTopH dataTopA
+  rw [list3_map]
+  cases list3 v with
+  | none => rfl
+  | some p =>
+    obtain ⟨a, c, cf⟩ := p
+    simp only [Option.map_some, req, bind, Except.bind, asArr_abs, asNum_abs]
+    cases a.asArr? with
+    | none => rfl
+    | some rows =>
+      cases c.asNum? with
+      | none => rfl
+      | some count =>
+        simp only [Option.map_some, toInt_abs, hostE, rangeLen, ← categoryKeys_ref]
+        cases categoryKeys rows cf with
+        | error e => leaf
+        | ok keyed => simp [absE, absBodyR, pure, Except.pure, topRows_ref]
+
+
+/-! ### the wrapped calls -/
+
+/-- every modelled function body — written with Python-typed partial primitives and `int()` exactly where library.py has it —
+    refines its one-number-type version: same value, same failure (class and failure value), same new contents of a mutated array. -/
+theorem body_refines (name : String) (v : List HVal) : absB (bodyH name v) = bodyA name (v.map absV) := by
+  unfold bodyH bodyA
+  split <;> first
+    | exact arrayDelete_ref v | exact arrayGet_ref v | exact arraySet_ref v | exact arraySlice_ref v
+    | exact arrayNewSize_ref v | exact arrayIndexOf_ref v | exact arrayLastIndexOf_ref v | exact stringCharCodeAt_ref v
+    | exact stringFromCharCode_ref v | exact stringIndexOf_ref v | exact stringLastIndexOf_ref v | exact stringRepeat_ref v
+    | exact stringSlice_ref v | exact numberParseInt_ref v | exact dataTop_ref v | rfl
+
+theorem wrap_abs (args : List HVal) (b : Except (Fail PyNum) (BodyR PyNum)) :
+    absOut (wrap args b) = wrap (args.map absV) (absB b) := by
+  cases b with
+  | error e => cases e <;> simp [wrap, absOut, absE, absFail]
+  | ok p =>
+    obtain ⟨r, o⟩ := p
+    cases o <;> simp [wrap, absOut, absE, absBodyR, List.map_set]
+
+/-- **T `libH_refines_lib`**: for every modelled library function (any name: unmodelled names are the trivially failing body on
+    both sides) and ALL argument lists, the wrapped host-level call, with spellings forgotten afterwards, equals the
+    one-number-type call on the abstracted arguments: the value of the call expression (including the failure values null / -1
+    produced by the call wrapper for `ValueArgsError` and for swallowed host exceptions) and the post-call contents of the
+    argument objects. -/
+theorem libH_refines_lib (name : String) (args : List HVal) :
+    absOut (callH name args) = callA name (args.map absV) := by
+  unfold callH callA callWith
+  cases (modelName name).map argModel with
+  | none => simp only [wrap_abs, body_refines]
+  | some ms =>
+    simp only [← validate_refines]
+    cases validateH ms args with
+    | none => by_cases h : failInt name = true <;> simp [h, absOut, ofI]
+    | some vargs => simp only [Option.map_some, wrap_abs, body_refines]
+
+
+/-- **T `spelling_irrelevant`**: two argument lists that are equal up to the int/float spelling of their numbers (at every depth)
+    give the same result and the same post-call arguments, up to spelling. In particular a script literal (always a float) works
+    wherever an index, count, size, radix or char code is expected exactly like the int. -/
+theorem spelling_irrelevant (name : String) (args args' : List HVal) (h : args.map absV = args'.map absV) :
+    absOut (callH name args) = absOut (callH name args') := by
+  rw [libH_refines_lib, libH_refines_lib, h]
+
+/-- **T `validate_spelling_irrelevant`**: `value_args_validate` accepts / rejects / normalises two equal-valued argument lists alike. -/
+theorem validate_spelling_irrelevant (ms : List Gen.ArgModel) (args args' : List HVal) (h : args.map absV = args'.map absV) :
+    (validateH ms args).map (List.map absV) = (validateH ms args').map (List.map absV) := by
+  rw [validate_refines, validate_refines, h]
+
+/-- the number checks of value.py:303-322 taken alone: the type test `number`, `integer` (`int(x) != x`), `lt`/`lte`/`gt`/`gte`
+    agree on `x` and `y` whenever they denote the same number. -/
+theorem numcheck_spelling_irrelevant (m : Gen.ArgModel) (x y : PyNum) (h : x.abs = y.abs) :
+    numOkH m x = numOkH m y ∧ typeOk "number" (Val.num x) = typeOk "number" (Val.num y) := by
+  simp [numOkH_abs, h, typeOk, typeName]
+
+/-- the theorem is not vacuous and not trivially true: the pre-fix body of arraySet (`array[index] = value`, finding F1) does NOT
+    refine the one-number-type function — the witness is the float index 0.0. -/
+theorem unfixed_arraySet_not_refines : ∃ v : List HVal, absB (arraySetUnfixedH v) ≠ arraySetA (v.map absV) := by
+  refine ⟨[.arr [.num (.int 1)], .num (.float 0), .null], ?_⟩
+  have h01 : (0 : Rat) < 1 := by decide
+  simp [h01, absB, arraySetUnfixedH, arraySetA, list3, req, Val.asArr?, Val.asNum?, bind, Except.bind, geLen, pyLtI, geLenA, hostE, listSet,
+    absE, absFail, atIndexA, normIndex, ratTrunc, pure, Except.pure]
+
+/-- `value_round_number` (mathRound, numberToFixed, datetime millisecond rounding) with IEEE rounding as an abstract function:
+    for an integral digit count `k ≥ 0` in either spelling the host computation equals the one-number-type one **provided
+    `10^k` is a double** (`h_pow`, true exactly for k ≤ 22 — for k ≥ 23 the int spelling keeps the exact `10^k` while the float
+    spelling has the rounded one: finding F15), rounding is idempotent, the truncation of a double is a double, and the value
+    is a double (always true of a float; of an int when |n| < 2^53). -/
+theorem roundNumber_refines (rnd : Rat → Rat) (value : PyNum) (k : Int) (digits : PyNum)
+    (hk : 0 ≤ k) (hd : digits = .int k ∨ digits = .float (k : Rat))
+    (h_idem : ∀ q, rnd (rnd q) = rnd q)
+    (h_trunc : ∀ q, rnd ((ratTrunc (rnd q) : Int) : Rat) = ((ratTrunc (rnd q) : Int) : Rat))
+    (h_pow : rnd ((10 : Rat) ^ k.toNat) = (10 : Rat) ^ k.toNat)
+    (h_val : rnd value.abs = value.abs) :
+    roundNumberH rnd value digits = roundNumberA rnd value.abs digits.abs := by
+  rcases hd with rfl | rfl
+  · cases value with
+    | int n => simp [roundNumberH, roundNumberA, pow10H, hk, mulH, addHalfH, divH, ratTrunc_intCast, Rat.intCast_mul]
+    | float q =>
+      simp only [abs_float] at h_val
+      simp [roundNumberH, roundNumberA, pow10H, hk, mulH, addHalfH, divH, ratTrunc_intCast, h_val, h_pow, h_idem]
+  · cases value with
+    | int n =>
+      simp only [abs_int] at h_val
+      simp [roundNumberH, roundNumberA, pow10H, hk, mulH, addHalfH, divH, ratTrunc_intCast, h_val, h_pow, h_idem, h_trunc]
+    | float q =>
+      simp only [abs_float] at h_val
+      simp [roundNumberH, roundNumberA, pow10H, hk, mulH, addHalfH, divH, ratTrunc_intCast, h_val, h_pow, h_idem, h_trunc]
+
+/-- the operator `*` as fixed (F24: `float(left) * right`): the product depends only on the values. -/
+theorem opMul_refines (rnd : Rat → Rat) (a b : PyNum) (ha : IsDouble rnd a) (hb : IsDouble rnd b) :
+    opMulH rnd a b = opMulA rnd a.abs b.abs := by
+  cases a <;> cases b <;> simp_all [opMulH, opMulA, toFloatH, IsDouble]
+
+/-- the operator `**` as fixed (F24: `float(left) ** right`) over an abstract double power function. -/
+theorem opPow_refines (pw : Rat → Rat → Option Rat) (rnd : Rat → Rat) (a b : PyNum) (ha : IsDouble rnd a) (hb : IsDouble rnd b) :
+    opPowH pw rnd a b = opPowA pw rnd a.abs b.abs := by
+  cases a <;> cases b <;> simp_all [opPowH, opPowA, toFloatH, IsDouble]
+
+/-- the pre-fix `*` (int * int exact, finding F24) does not refine the one-number-type product: with a rounding function that
+    moves 6 (standing for an integer above 2^53) the int spelling keeps 6, the one-number-type product is the rounded 8. -/
+theorem opMulUnfixed_not_refines : ∃ (rnd : Rat → Rat) (a b : Int), (∀ q, rnd (rnd q) = rnd q) ∧
+    opMulUnfixedH rnd (.int a) (.int b) ≠ opMulA rnd a b := by
+  refine ⟨fun q => if q = 6 then 8 else q, 2, 3, ?_, ?_⟩
+  · intro q
+    by_cases h : q = 6
+    · simp only [h, if_true]; decide +kernel
+    · simp [h]
+  · simp only [opMulUnfixedH, opMulA]; decide +kernel
+
+/-! ### non-vacuity: concrete instances -/
+
+/-- arraySet with a float index succeeds and updates the array (the F1 witness, now fine) -/
+example : (match (callH "arraySet" [.arr [.num (.int 1), .num (.int 2)], .num (.float 1), .str "x"]) with
+    | ⟨.str "x", [.arr [.num (.int 1), .str "x"], _, _]⟩ => true
+    | _ => false) = true := by rfl
+
+/-- dataTop with a float count (the F2 witness) -/
+example : (match (callH "dataTop" [.arr [.obj [("a", .num (.int 1))], .obj [("a", .num (.int 2))]], .num (.float 1)]) with
+    | ⟨.arr [.obj _], _⟩ => true
+    | _ => false) = true := by rfl
+
+/-- a non-integral index is rejected by validation in both layers (failure value null) -/
+example : (match (callH "arrayGet" [.arr [.num (.int 1)], .num (.float (1 / 2))]) with
+    | ⟨.null, _⟩ => true
+    | _ => false) = true := by decide +kernel
+
+/-- the hypotheses of `spelling_irrelevant` are inhabited by a non-trivial pair (numbers at depth 2, both spellings) -/
+example : List.map absV [Val.arr [.num (.int 1), .arr [.num (.float 2)]], .num (.float 0)]
+    = List.map absV [Val.arr [.num (.float 1), .arr [.num (.int 2)]], .num (.int 0)] := by
+  simp [abs_int, abs_float]
+
+/-- the hypotheses of `roundNumber_refines` are inhabited: the identity rounding (exact arithmetic), k = 2 -/
+example : roundNumberH id (.float (5 / 4)) (.float 2) = roundNumberA id (5 / 4) 2 :=
+  roundNumber_refines id (.float (5 / 4)) 2 (.float 2) (by decide) (Or.inr rfl) (fun _ => rfl) (fun _ => rfl) rfl rfl
+
 end C12
